@@ -24,7 +24,7 @@ def run_demo(copy, demo):
     shutil.copy(demo, os.path.join(dst, "demo.py"))
     try:
         p = subprocess.run([PY, "_seed/demo.py"], cwd=copy, capture_output=True, text=True, timeout=600,
-                           env=dict(os.environ, PYTHONDONTWRITEBYTECODE="1"))
+                           env=dict(os.environ, PYTHONDONTWRITEBYTECODE="1", REPO=copy))
         return p.returncode, (p.stdout + p.stderr)[-500:]
     except subprocess.TimeoutExpired:
         return 124, "timeout"
